@@ -156,10 +156,11 @@ theorem clientRecvMany_qle (cfg : Cfg) (sid : Nat) : ∀ (ds : List Bytes) (st :
   | [], st => ⟨QLe.refl st, rfl⟩
   | d :: ds, st => by
     simp only [clientRecvMany]
+    have h2 := clientRecvMany_qle cfg sid ds
+    refine ⟨(h2 _).1.trans ?_, by simp [sentOf, (h2 _).2]⟩
     split
-    · exact ⟨QLe.refl st, rfl⟩
-    · have h2 := clientRecvMany_qle cfg sid ds
-      refine ⟨(h2 _).1.trans ?_, by simp [sentOf, (h2 _).2]⟩
+    · exact QLe.refl st
+    · unfold touchClient
       split
       · exact QLe.refl st
       · rename_i s hs
